@@ -2,6 +2,7 @@ import DaeVerif.C09.FwdModel
 import DaeVerif.C09.UdpModel
 import DaeVerif.C09.CtlModel
 import DaeVerif.C09.PipeModel
+import DaeVerif.C09.LoopModel
 /-!
 # C09 — DNS concurrency: executable models (core-only)
 
@@ -17,6 +18,9 @@ Four models, each mirroring one mechanism of `/repo/control`:
 * `Ctl`  — the glue of `HandleWithResponseWriter_` / `dialSend` (`dns_control.go`): cache lookup,
            singleflight leader/follower, upstream attempt with UDP→TCP fallback, the question check,
            cache insert, ID patching on every write path.
+
+* `Loop` — `forwardWithDialArg` / `getOrCreateDnsForwarder` / `retireAllDnsForwarders` / the idle evictor
+           (`dns_control.go`) over all the forwarders ever created for one cache key; every entry is a `Fwd.St`.
 
 The models live in `FwdModel.lean`, `UdpModel.lean`, `PipeModel.lean`, `CtlModel.lean` (one file each so
 that a change to one does not re-check the proofs of the others).  Nothing here imports Mathlib: the line-protocol driver (`Main.lean`) executes these definitions.
